@@ -15,7 +15,7 @@ ids = sys.argv[1:] or sorted(os.path.basename(os.path.dirname(p)) for p in glob.
 res = {}
 for sid in ids:
     meta = json.load(open(os.path.join(VERIF, 'seeded', sid, 'meta.json')))
-    prop = meta['breaks_property']; patch = os.path.join(VERIF, 'seeded', sid, 'patch.diff')
+    prop = meta.get('regress_property', meta['breaks_property']); patch = os.path.join(VERIF, 'seeded', sid, 'patch.diff')
     d = os.path.join(BASE, 'reg-' + sid)
     sh(['git', '-C', '/repo', 'worktree', 'remove', '--force', d]); shutil.rmtree(d, ignore_errors=True); os.makedirs(BASE, exist_ok=True)
     sh(['git', '-C', '/repo', 'worktree', 'add', '--detach', d, 'HEAD'])
